@@ -144,7 +144,7 @@ fn run_engine(p: &Pos, d: u8) -> Result<Option<(i32, Option<String>, u64)>, Fail
             if msg.contains("node hard cap") {
                 Ok(None)
             } else {
-                Err(Failure::new("search-panic", json!({"fen": p.fen(0,1), "depth": d, "panic": msg})))
+                Err(Failure::new("search-panic", json!({"fen": eng::fen(&p), "depth": d, "panic": msg})))
             }
         }
     }
@@ -169,7 +169,7 @@ fn part_m(bytes: &[u8], stats: &mut Stats) -> Verdict {
         return Ok(());
     };
     stats.eval();
-    let fen = p.fen(0, 1);
+    let fen = eng::fen(&p);
     let mate_list: Vec<String> = ms.iter().map(|m| m.uci()).collect();
     let Some(uci) = mv else {
         return Err(Failure::new("no-move-returned", json!({"fen": fen, "depth": d, "mating_moves": mate_list})));
@@ -245,7 +245,7 @@ fn part_d(bytes: &[u8], stats: &mut Stats) -> Verdict {
         return Ok(());
     };
     stats.eval();
-    let fen = p.fen(0, 1);
+    let fen = eng::fen(&p);
     let allow_list: Vec<String> = al.iter().map(|m| m.uci()).collect();
     let Some(uci) = mv else {
         return Err(Failure::new("no-move-returned", json!({"fen": fen, "depth": d})));
